@@ -79,6 +79,18 @@ Flat(cl) == [n \in DOMAIN cl |->
 RECURSIVE Ancestors(_, _)
 Ancestors(cl, n) == IF HasParent(cl, n) THEN {cl[n].extends} \cup Ancestors(cl, cl[n].extends) ELSE {}
 
+\* Class identity is the table key.  DISTINCT classes may share their python name (`__module__` + `__qualname__`):
+\* models returned by a factory (`page_of(User)` / `page_of(Order)` are both `page_of.<locals>.Page`),
+\* `make_dataclass` under a fixed name, a reloaded model module.  Every entry carries `pyname` ("" = its key).
+PyClsName(cl, n) == IF cl[n].pyname = "" THEN n ELSE cl[n].pyname
+\* WHERE a class is declared is part of its identity as python sees it: `where` = "module" (qualname = name),
+\* "nested" (declared inside another class: `Outer.Name`), "local" (inside a function: `factory.<locals>.Name`).
+\* Nothing in the reference semantics depends on it - which is the point: the laws and the error-naming clause
+\* hold for every declaration place.
+QualName(cl, n) == CASE cl[n].where = "nested" -> "Outer." \o PyClsName(cl, n)
+                     [] cl[n].where = "local"  -> "factory.<locals>." \o PyClsName(cl, n)
+                     [] OTHER -> PyClsName(cl, n)
+
 \* what the harness needs to BUILD the class: whether it has an own Meta and the (wire, python) pairs in it
 MetaPairs(cl, n) ==
   LET own == cl[n].fields
@@ -89,7 +101,8 @@ MetaPairs(cl, n) ==
        [] cl[n].meta = "diff"   -> pairsOf(differing(own), TRUE)
        [] cl[n].meta = "extend" -> pairsOf(Fs(cl, n), TRUE)
        [] cl[n].meta = "own"    -> pairsOf(own, TRUE)
-WithBuild(cl) == [n \in DOMAIN cl |-> cl[n] @@ [build |-> [hasmeta |-> cl[n].meta \notin {"none", "inherit"}, pairs |-> MetaPairs(cl, n)]]]
+WithBuild(cl) == [n \in DOMAIN cl |-> cl[n] @@ [build |-> [hasmeta |-> cl[n].meta \notin {"none", "inherit"}, pairs |-> MetaPairs(cl, n),
+                                                           qualname |-> QualName(cl, n)]]]
 
 RECURSIVE Tops(_)
 Tops(T) ==        \* classes named by the annotation itself (through list / dict / Optional wrappers only)
@@ -140,18 +153,6 @@ WireName(role, style, i) == StyleTab[role][style][i][2]
 \* a key map is usable only when it is a bijection between python names and wire keys (the property's quantifier)
 KeysBijective(cl, n) ==
   LET fs == Fs(cl, n) IN \A i, j \in 1..Len(fs) : i # j => (fs[i].py # fs[j].py /\ fs[i].wire # fs[j].wire)
-\* Class identity is the table key.  DISTINCT classes may share their python name (`__module__` + `__qualname__`):
-\* models returned by a factory (`page_of(User)` / `page_of(Order)` are both `page_of.<locals>.Page`),
-\* `make_dataclass` under a fixed name, a reloaded model module.  Every entry carries `pyname` ("" = its key).
-PyClsName(cl, n) == IF cl[n].pyname = "" THEN n ELSE cl[n].pyname
-\* WHERE a class is declared is part of its identity as python sees it: `where` = "module" (qualname = name),
-\* "nested" (declared inside another class: `Outer.Name`), "local" (inside a function: `factory.<locals>.Name`).
-\* Nothing in the reference semantics depends on it - which is the point: the laws and the error-naming clause
-\* hold for every declaration place.
-QualName(cl, n) == CASE cl[n].where = "nested" -> "Outer." \o PyClsName(cl, n)
-                     [] cl[n].where = "local"  -> "factory.<locals>." \o PyClsName(cl, n)
-                     [] OTHER -> PyClsName(cl, n)
-
 MetaConsistent(cl, n) ==
   LET own == cl[n].fields IN
   IF HasParent(cl, n)
